@@ -15,10 +15,11 @@ pub mod c01;
 pub mod c02;
 pub mod c03;
 pub mod c04;
+pub mod c05;
 
 use runner::{Run, Sub};
 
-pub const PROPS: &[&str] = &["C01", "C02", "C03", "C04"];
+pub const PROPS: &[&str] = &["C01", "C02", "C03", "C04", "C05"];
 
 pub fn subs_of(prop: &str) -> Option<Vec<Sub>> {
     match prop {
@@ -26,6 +27,7 @@ pub fn subs_of(prop: &str) -> Option<Vec<Sub>> {
         "C02" => Some(c02::subs()),
         "C03" => Some(c03::subs()),
         "C04" => Some(c04::subs()),
+        "C05" => Some(c05::subs()),
         _ => None,
     }
 }
@@ -36,6 +38,7 @@ pub fn run_prop(run: &Run) -> bool {
         "C02" => c02::run(run),
         "C03" => c03::run(run),
         "C04" => c04::run(run),
+        "C05" => c05::run(run),
         _ => return false,
     }
     true
@@ -43,6 +46,20 @@ pub fn run_prop(run: &Run) -> bool {
 
 /// Entry point for helper child processes (`wfcheck --child <mode> ...`).
 pub fn child_main(args: &[String]) -> i32 {
-    let _ = args;
-    2
+    match args.first().map(|s| s.as_str()) {
+        Some("c05") => c05::child(&args[1..]),
+        _ => 2,
+    }
+}
+
+/// Replay a raw fuzzer artifact (bytes) for the property whose target produced it.
+pub fn replay_raw(prop: &str, bytes: &[u8]) -> Option<runner::CaseResult> {
+    let mut st = runner::Stats::default();
+    match prop {
+        "C05" => {
+            let s = c04::matrix_recipe().build();
+            Some(c05::check_input(&s, &String::from_utf8_lossy(bytes), &mut st, "artifact"))
+        }
+        _ => None,
+    }
 }
